@@ -3,6 +3,7 @@ package specification
 import (
 	"fmt"
 	"strconv"
+	"strings"
 
 	"github.com/getkin/kin-openapi/openapi3"
 )
@@ -148,7 +149,15 @@ func NewOperationParameters(pathParams, operationParams openapi3.Parameters, com
 			if err != nil {
 				return zero, fmt.Errorf("header param %q: %w", param.Value.Name, err)
 			}
-			out.Headers.Add(p.Value().Name, p)
+			// header names are case-insensitive: X-Trace at operation level overrides x-trace of the path item
+			key := p.Value().Name
+			for _, h := range out.Headers.List {
+				if strings.EqualFold(h.Name, key) {
+					key = h.Name
+					break
+				}
+			}
+			out.Headers.Add(key, p)
 		case openapi3.ParameterInCookie:
 			p, err := NewRefCookieParam(param, components, opts)
 			if err != nil {
